@@ -50,12 +50,24 @@ fn main() -> Result<()> {
     let app = configure_args(App::new("jsonlogic"));
     let matches = app.get_matches();
 
-    let logic = matches.value_of("logic").expect("logic arg expected");
+    // Arguments are arbitrary bytes as far as the OS is concerned; text that
+    // is not UTF-8 cannot be JSON, which is an ordinary error, not a panic
+    // (clap's value_of() panics on invalid UTF-8).
+    let logic = matches
+        .value_of_os("logic")
+        .context("logic arg expected")?
+        .to_str()
+        .context("Could not parse logic as JSON: argument is not valid UTF-8")?;
     let json_logic: Value =
         serde_json::from_str(logic).context("Could not parse logic as JSON")?;
 
     // let mut data: String;
-    let data_arg = matches.value_of("data").unwrap_or("-");
+    let data_arg = match matches.value_of_os("data") {
+        Some(arg) => arg
+            .to_str()
+            .context("Could not parse data as JSON: argument is not valid UTF-8")?,
+        None => "-",
+    };
 
     let mut data: String;
     if data_arg != "-" {
